@@ -95,6 +95,16 @@ func (c *Ctx) primitiveSweep(maxP int) {
 			}
 		}
 	}
+	for n := 0; n <= 8; n++ {
+		n := n
+		lps := make([]extrude.LinePoint, n)
+		p := vector3.Zero[float64]()
+		for j := range lps {
+			p = p.Add(vector3.New(float64(c.Rng.Intn(3)), 1+float64(c.Rng.Intn(3)), float64(c.Rng.Intn(3)-1)))
+			lps[j] = extrude.LinePoint{Point: p, Up: vector3.Up[float64](), Width: float64(c.Rng.Intn(3)), Height: 1, Uv: vector2.New(0., float64(j)), UvWidth: 1}
+		}
+		c.gen("extrude_line", strconv.Itoa(n), func() modeling.Mesh { return extrude.Line(lps) })
+	}
 	// extrude.polygon (Polygon / Circle.Extrude): the winding of each quad is a float decision, so the index list
 	// is checked by an oracle line against the generator with the flags read off the output
 	for pl := 0; pl <= 5; pl++ {
